@@ -299,7 +299,7 @@ def dlStep (cfg : DynList.Cfg) (hs : List Nat) (s : DynList.St) (sel scr : Bool)
   match op with
   | ["items", h] =>
     match heights? h with
-    | some hs' => (.dl cfg hs' s sel true, "-\t-\t-")
+    | some hs' => (.dl cfg hs' s sel scr, "-\t-\t-")
     | Option.none => (.dead, bad)
   | ["setcursor", c] =>
     match c.toNat? with
